@@ -447,6 +447,7 @@ pub fn run_sync(env: &Env, items: &[PItem]) {
             PItem::CaptureFrame { slot, props } => capture_frame(env, *slot, *props),
             PItem::RunFrame { frame, how, items, pre, end, post, .. } => {
                 match frame.and_then(|f| env.frames[f].lock().unwrap().take()) {
+                    None if *how == RunHow::OtherThread => run_frame_elsewhere(env, None, items, *pre, *end),
                     None => {
                         check(env, *pre);
                         run_sync(env, items);
@@ -466,7 +467,7 @@ pub fn run_sync(env: &Env, items: &[PItem]) {
                             check(env, *pre);
                             run_async(env, items).await
                         })),
-                        RunHow::OtherThread => run_frame_elsewhere(env, frame, items, *pre, *end),
+                        RunHow::OtherThread => run_frame_elsewhere(env, Some(frame), items, *pre, *end),
                     },
                 }
                 check(env, *post);
@@ -515,6 +516,7 @@ pub fn run_async<'a>(env: &'a Env<'a>, items: &'a [PItem]) -> BoxFut<'a> {
                 PItem::CaptureFrame { slot, props } => capture_frame(env, *slot, *props),
                 PItem::RunFrame { frame, how, items, pre, end, post, .. } => {
                     match frame.and_then(|f| env.frames[f].lock().unwrap().take()) {
+                        None if *how == RunHow::OtherThread => run_frame_elsewhere(env, None, items, *pre, *end),
                         None => {
                             check(env, *pre);
                             run_async(env, items).await;
@@ -539,7 +541,7 @@ pub fn run_async<'a>(env: &'a Env<'a>, items: &'a [PItem]) -> BoxFut<'a> {
                                     })
                                     .await
                             }
-                            RunHow::OtherThread => run_frame_elsewhere(env, frame, items, *pre, *end),
+                            RunHow::OtherThread => run_frame_elsewhere(env, Some(frame), items, *pre, *end),
                         },
                     }
                     check(env, *post);
@@ -599,16 +601,20 @@ fn capture_frame(env: &Env, slot: usize, props: bool) {
     *env.frames[slot].lock().unwrap() = Some(frame);
 }
 
-fn run_frame_elsewhere(env: &Env, frame: CapturedFrame, items: &[PItem], pre: usize, end: Option<usize>) {
+fn run_frame_elsewhere(env: &Env, frame: Option<CapturedFrame>, items: &[PItem], pre: usize, end: Option<usize>) {
     let r = std::thread::scope(|s| {
         s.spawn(move || {
             vcore::catch(move || {
                 // a planned panic in the body is caught by this thread, which then shows it is clean again
                 let _ = catch_planned(|| {
-                    frame.call(|| {
+                    let body = || {
                         check(env, pre);
                         run_sync(env, items)
-                    })
+                    };
+                    match frame {
+                        Some(frame) => frame.call(body),
+                        None => body(),
+                    }
                 });
                 if let Some(end) = end {
                     check(env, end);
